@@ -84,7 +84,11 @@ func EscapeName(s string) string {
 	raw := []byte(s)
 	escaped := make([]byte, 0, len(s))
 	for _, c := range raw {
-		if c <= 32 {
+		// Backslash must be escaped too: otherwise a name
+		// that contains a backslash followed by three digits
+		// (or another backslash) reads back as a different
+		// name.
+		if c <= 32 || c == '\\' {
 			oct := fmt.Sprintf("\\%03o", c)
 			escaped = append(escaped, []byte(oct)...)
 		} else {
